@@ -1,7 +1,302 @@
 //! Direct correspondence for passage_protocol::cookie::{sign, verify} (C02 / C10): every case is
 //! one call of the real functions; the Gallina side recomputes HMAC-SHA256 from the specification.
-use passage_protocol::cookie::{sign, verify};
+//!
+//! Families JS / JP tie the Gallina model of serde_json on the two cookie records
+//! (Crypto/CookieJson.v) to the real serde_json: JS = seeded records written by `to_vec`,
+//! JP = byte strings (valid serialisations and one mutation each) read by `from_slice`.
+use passage_adapters::authentication::ProfileProperty;
+use passage_protocol::cookie::{sign, verify, AuthCookie, SessionCookie};
+use std::collections::HashMap;
+use std::net::{IpAddr, Ipv4Addr, Ipv6Addr, SocketAddr};
+use uuid::Uuid;
+use vh::connrun::{g_auth_cookie, g_session_cookie};
 use vh::*;
+
+// ---------------------------------------------------------------- JS / JP generators
+const SPECIALS: &[&str] = &["\"", "\\", "\n", "\r", "\t", "\u{8}", "\u{c}", "\u{0}", "\u{1}", "\u{b}", "\u{1f}", "\u{7f}",
+    "/", "\u{e4}", "\u{20ac}", "\u{1F600}", " ", "'", "\u{2028}", "\u{80}", "\u{ffff}"];
+
+fn nasty(r: &mut Rng, max: usize) -> String {
+    match r.below(6) {
+        0 => String::new(),
+        1 => format!("Player{}", r.below(1000)),
+        2 => r.utf8(max),
+        _ => {
+            let mut s = String::new();
+            for _ in 0..(1 + r.below(max as u64)) {
+                if r.chance(1, 2) { s.push_str(*r.pick(SPECIALS)); } else { s.push(char::from_u32(0x21 + r.below(0x5e) as u32).unwrap()); }
+            }
+            s
+        }
+    }
+}
+fn rnd_u128(r: &mut Rng) -> u128 {
+    match r.below(6) { 0 => 0, 1 => u128::MAX, 2 => 1, 3 => r.next() as u128, _ => ((r.next() as u128) << 64) | r.next() as u128 }
+}
+fn rnd_ip(r: &mut Rng) -> IpAddr {
+    if r.chance(1, 2) {
+        let o: Vec<u8> = (0..4).map(|_| *r.pick(&[0u8, 1, 9, 10, 99, 100, 127, 192, 255])).collect();
+        IpAddr::V4(Ipv4Addr::new(o[0], o[1], o[2], o[3]))
+    } else {
+        let mut g = [0u16; 8];
+        match r.below(6) {
+            0 => {}                                               // ::
+            1 => { g[7] = 1; }                                    // ::1
+            2 => { g[5] = 0xffff; g[6] = r.next() as u16; g[7] = r.next() as u16; }   // IPv4-mapped
+            3 => { g[6] = r.next() as u16; g[7] = r.next() as u16; }                  // IPv4-compatible
+            _ => { for x in g.iter_mut() { *x = if r.chance(1, 2) { 0 } else { *r.pick(&[1u16, 0xa, 0xdb8, 0x2001, 0xffff, 0xfe80]) }; } }
+        }
+        IpAddr::V6(Ipv6Addr::new(g[0], g[1], g[2], g[3], g[4], g[5], g[6], g[7]))
+    }
+}
+fn rnd_port(r: &mut Rng) -> u16 { *r.pick(&[0u16, 1, 9, 10, 80, 25565, 65535, 32768, 1000]) }
+fn rnd_prop(r: &mut Rng) -> ProfileProperty {
+    ProfileProperty { name: if r.chance(1, 2) { "textures".into() } else { nasty(r, 6) }, value: nasty(r, 12),
+                      signature: if r.chance(1, 2) { Some(nasty(r, 8)) } else { None } }
+}
+fn rnd_auth(r: &mut Rng) -> AuthCookie {
+    let mut extra = HashMap::new();
+    // at most one entry: a HashMap with two or more iterates in a per-process random order
+    if r.chance(1, 3) { extra.insert(nasty(r, 5), nasty(r, 5)); }
+    AuthCookie {
+        timestamp: *r.pick(&[0u64, 1, 9, 10, u64::MAX, u64::MAX - 1, 1_700_000_000, 10_000_000_000_000_000_000, 9_999_999_999_999_999_999, 1 << 63]),
+        client_addr: SocketAddr::new(rnd_ip(r), rnd_port(r)),
+        user_name: nasty(r, 10),
+        user_id: Uuid::from_u128(rnd_u128(r)),
+        target: if r.chance(1, 3) { None } else { Some(nasty(r, 8)) },
+        profile_properties: (0..r.below(4)).map(|_| rnd_prop(r)).collect(),
+        extra,
+    }
+}
+fn rnd_session(r: &mut Rng) -> SessionCookie {
+    SessionCookie { id: Uuid::from_u128(rnd_u128(r)), server_address: nasty(r, 12), server_port: rnd_port(r),
+                    trace_id: match r.below(4) { 0 => None, 1 => Some(format!("{:032x}", rnd_u128(r))), _ => Some("0".repeat(32)) } }
+}
+
+fn jres_auth(p: &[u8]) -> String {
+    match serde_json::from_slice::<AuthCookie>(p) { Ok(c) => format!("(JOk {})", g_auth_cookie(&c)), Err(_) => "JErr".into() }
+}
+fn jres_session(p: &[u8]) -> String {
+    match serde_json::from_slice::<Option<SessionCookie>>(p) {
+        Ok(None) => "(JOk None)".into(),
+        Ok(Some(c)) => format!("(JOk (Some {}))", g_session_cookie(&c)),
+        Err(_) => "JErr".into(),
+    }
+}
+
+/// a JSON object as a list of (key text without quotes, value text); `compose` writes it
+/// compactly or with whitespace at every token boundary
+#[derive(Clone)]
+struct Doc(Vec<(Vec<u8>, Vec<u8>)>);
+fn ws(r: &mut Rng, on: bool) -> Vec<u8> {
+    if !on { return vec![]; }
+    (0..r.below(3)).map(|_| *r.pick(&[b' ', b'\n', b'\t', b'\r'])).collect()
+}
+fn compose(d: &Doc, r: &mut Rng, spaced: bool) -> Vec<u8> {
+    let mut o = ws(r, spaced);
+    o.push(b'{');
+    for (i, (k, v)) in d.0.iter().enumerate() {
+        if i > 0 { o.extend(ws(r, spaced)); o.push(b','); }
+        o.extend(ws(r, spaced)); o.push(b'"'); o.extend_from_slice(k); o.push(b'"');
+        o.extend(ws(r, spaced)); o.push(b':'); o.extend(ws(r, spaced)); o.extend_from_slice(v);
+    }
+    o.extend(ws(r, spaced)); o.push(b'}'); o.extend(ws(r, spaced));
+    o
+}
+fn js<T: serde::Serialize>(v: &T) -> Vec<u8> { serde_json::to_vec(v).unwrap() }
+fn auth_doc(c: &AuthCookie) -> Doc {
+    Doc(vec![(b"timestamp".to_vec(), js(&c.timestamp)), (b"client_addr".to_vec(), js(&c.client_addr)),
+             (b"user_name".to_vec(), js(&c.user_name)), (b"user_id".to_vec(), js(&c.user_id)),
+             (b"target".to_vec(), js(&c.target)), (b"profile_properties".to_vec(), js(&c.profile_properties)),
+             (b"extra".to_vec(), js(&c.extra))])
+}
+fn session_doc(c: &SessionCookie) -> Doc {
+    Doc(vec![(b"id".to_vec(), js(&c.id)), (b"server_address".to_vec(), js(&c.server_address)),
+             (b"server_port".to_vec(), js(&c.server_port)), (b"trace_id".to_vec(), js(&c.trace_id))])
+}
+fn qs(s: &str) -> Vec<u8> { format!("\"{}\"", s).into_bytes() }
+
+/// rewrite the content of a serialised JSON string with other spellings of the same characters
+fn respell(r: &mut Rng, s: &str) -> Vec<u8> {
+    let mut o = vec![b'"'];
+    for ch in s.chars() {
+        let cp = ch as u32;
+        match r.below(4) {
+            0 if cp < 0x10000 => o.extend(if r.chance(1, 2) { format!("\\u{:04x}", cp) } else { format!("\\u{:04X}", cp) }.bytes()),
+            0 => { let v = cp - 0x10000; o.extend(format!("\\u{:04x}\\u{:04X}", 0xd800 + (v >> 10), 0xdc00 + (v & 0x3ff)).bytes()); }
+            1 if ch == '/' => o.extend(b"\\/"),
+            _ => o.extend(serde_json::to_string(&ch.to_string()).unwrap().trim_matches('"').bytes()),
+        }
+    }
+    o.push(b'"');
+    o
+}
+
+const BAD_STRINGS: &[&[u8]] = &[b"\"\\x\"", b"\"\\u12\"", b"\"\\u12g4\"", b"\"\\ud800\"", b"\"\\udc00\"", b"\"\\ud800\\u0041\"", b"\"\\ud800x\"",
+    b"\"\\ud800\\n\"", b"\"\\udbff\\udfff\"", b"\"\\ud83d\\ude00\"", b"\"\\uD7FF\\uE000\"", b"\"a\nb\"", b"\"a\x00b\"", b"\"a\x1fb\"", b"\"a\x7fb\"",
+    b"\"\xff\"", b"\"\xc0\x80\"", b"\"\xe2\x82\"", b"\"\xed\xa0\x80\"", b"\"\xf4\x90\x80\x80\"", b"\"\xc3\\u00a4\"", b"\"\xc3\xa4\"",
+    b"\"abc", b"\"abc\\", b"\"abc\\\"", b"'abc'", b"abc", b"\"\\u0000\"", b"\"\\b\\f\\n\\r\\t\\\"\\\\\\/\"", b"\"\\a\"", b"\"\\U0041\""];
+const WRONG: &[&[u8]] = &[b"null", b"true", b"false", b"0", b"1", b"-1", b"1.5", b"\"x\"", b"\"\"", b"[]", b"{}", b"[1]", b"{\"a\":\"b\"}", b"", b"nul", b"nulll", b"NULL", b"Null"];
+const NUMS: &[&[u8]] = &[b"0", b"00", b"01", b"-0", b"-1", b"1.0", b"1e3", b"1E3", b"0e0", b"0.0", b"18446744073709551615", b"18446744073709551616",
+    b"18446744073709551620", b"99999999999999999999999", b"+1", b"0x10", b"1_000", b".5", b"1.", b"65535", b"65536", b"9", b"10", b"1e", b"-", b"1-", b"1a", b"\"1\"", b"\xd9\xa1"];
+const UUIDS: &[&str] = &["67E55044-10B1-426F-9247-BB680E5FE0C8", "67e5504410b1426f9247bb680e5fe0c8", "{67e55044-10b1-426f-9247-bb680e5fe0c8}",
+    "urn:uuid:67e55044-10b1-426f-9247-bb680e5fe0c8", "67e55044-10b1-426f-9247-bb680e5fe0c", "67e55044-10b1-426f-9247-bb680e5fe0c88", "67e55044-10b1-426f-9247-bb680e5fe0cg",
+    "67e5504-410b1-426f-9247-bb680e5fe0c8", "67e55044-10b1-426f-9247bb680e5fe0c8-", "", "67e55044_10b1_426f_9247_bb680e5fe0c8", "67e5504410b1426f9247bb680e5fe0cg",
+    "{67e55044-10b1-426f-9247-bb680e5fe0c8", "[67e55044-10b1-426f-9247-bb680e5fe0c8]", "URN:UUID:67e55044-10b1-426f-9247-bb680e5fe0c8", "urn:uuid:67e5504410b1426f9247bb680e5fe0c8xxxx",
+    "67e55044-10b1-426f-9247-bb680e5fe0\u{e9}", "{67e5504410b1426f9247bb680e5fe0c8}xxxx", "--------------------------------", "+7e55044-10b1-426f-9247-bb680e5fe0c8", " 67e55044-10b1-426f-9247-bb680e5fe0c"];
+const ADDRS: &[&str] = &["1.2.3.4", "[::1]:80", "::1:80", "1.2.3.4:65536", "01.2.3.4:5", "[fe80::1%7]:80", "[fe80::1%0]:80", "1.2.3.4:080", "[0:0:0:0:0:0:0:1]:80",
+    "[2001:DB8::1]:1", "[::ffff:1.2.3.4]:9", "[::1.2.3.4]:9", "[::ffff:102:304]:9", "1.2.3.4:", "1.2.3.4:+5", "[1.2.3.4]:5", "[::1]", "256.1.1.1:1", "1.2.3:1", "",
+    "localhost:80", " 1.2.3.4:5", "1.2.3.4:5 ", "[1:2:3:4:5:6:7:8]:0", "[1:0:0:2:0:0:0:3]:1", "[1::2:0:0:3]:70000", "[::]:0", "[1:2:3:4:5:6:7::]:1", "[::%4294967295]:1", "[::%4294967296]:1",
+    "1.2.3.4:00000000000000000005", "[1:2:3:4:5:6:1.2.3.4]:5", "1.2.3.4\\u003a5", "1.2.3.4:5\\u0000"];
+
+fn put(d: &Doc, key: &str, val: &[u8]) -> Doc {
+    Doc(d.0.iter().map(|(k, v)| if k == key.as_bytes() { (k.clone(), val.to_vec()) } else { (k.clone(), v.clone()) }).collect())
+}
+fn get<'a>(d: &'a Doc, key: &str) -> &'a [u8] { &d.0.iter().find(|(k, _)| k == key.as_bytes()).unwrap().1 }
+
+/// every mutation yields (label, bytes); `outside` marks the ones the Gallina parser is known not to decide
+fn mutations(r: &mut Rng, d: &Doc, strings: &[(&str, String)], numkey: &str, idkey: &str, session: bool) -> Vec<(&'static str, bool, Vec<u8>)> {
+    let mut out: Vec<(&'static str, bool, Vec<u8>)> = vec![];
+    let base = compose(d, r, false);
+    out.push(("valid", false, base.clone()));
+    out.push(("spaced", false, compose(d, r, true)));
+    // truncations
+    for _ in 0..3 { let n = r.below(base.len() as u64) as usize; out.push(("truncated", false, base[..n].to_vec())); }
+    out.push(("truncated", false, base[..base.len() - 1].to_vec()));
+    // a field removed
+    for i in 0..d.0.len() { let mut e = d.clone(); e.0.remove(i); out.push(("removed", false, compose(&e, r, false))); }
+    // fields permuted
+    for _ in 0..3 { let mut e = d.clone(); for i in (1..e.0.len()).rev() { let j = r.below(i as u64 + 1) as usize; e.0.swap(i, j); }
+        let sp = r.chance(1, 3); out.push(("reordered", false, compose(&e, r, sp))); }
+    // an unknown field (serde ignores it)
+    for v in [&b"1"[..], b"\"x\"", b"{\"a\":[1,2,{\"b\":null}]}", b"[]", b"nul"] {
+        let mut e = d.clone(); let at = r.below(e.0.len() as u64 + 1) as usize; e.0.insert(at, (b"other".to_vec(), v.to_vec())); out.push(("unknown-field", true, compose(&e, r, false))); }
+    // a duplicated field
+    { let mut e = d.clone(); let i = r.below(e.0.len() as u64) as usize; let f = e.0[i].clone(); e.0.push(f); out.push(("duplicate-field", false, compose(&e, r, false))); }
+    { let mut e = d.clone(); let f = e.0[0].clone(); e.0.insert(1, f); out.push(("duplicate-field", false, compose(&e, r, false))); }
+    // a key spelled with an escape
+    { let mut e = d.clone(); let k = e.0[0].0.clone(); let mut k2 = format!("\\u{:04x}", k[0]).into_bytes(); k2.extend_from_slice(&k[1..]); e.0[0].0 = k2; out.push(("escaped-key", false, compose(&e, r, false))); }
+    { let mut e = d.clone(); e.0[0].0[0] = e.0[0].0[0].to_ascii_uppercase(); out.push(("unknown-field", true, compose(&e, r, false))); }
+    // wrong type / malformed value in every field
+    for i in 0..d.0.len() { for _ in 0..3 { let mut e = d.clone(); e.0[i].1 = r.pick(WRONG).to_vec(); out.push(("wrong-type", false, compose(&e, r, false))); } }
+    // numbers
+    for n in NUMS { out.push(("number", false, compose(&put(d, numkey, n), r, false))); }
+    // uuids
+    for u in UUIDS { out.push(("uuid", false, compose(&put(d, idkey, &qs(u)), r, false))); }
+    // strings: other spellings, bad escapes, bad bytes
+    for (k, s) in strings { out.push(("respelled", false, compose(&put(d, k, &respell(r, s)), r, false))); }
+    for b in BAD_STRINGS { let k = strings[r.below(strings.len() as u64) as usize].0; out.push(("string", false, compose(&put(d, k, b), r, false))); }
+    // separators
+    { let mut v = base.clone(); v.insert(v.len() - 1, b','); out.push(("trailing-comma", false, v)); }
+    { let v: Vec<u8> = base.iter().map(|&c| if c == b':' { b'=' } else { c }).collect(); out.push(("separator", false, v)); }
+    { let p = base.iter().position(|&c| c == b',').unwrap(); let mut v = base.clone(); v[p] = b';'; out.push(("separator", false, v)); }
+    { let p = base.iter().position(|&c| c == b',').unwrap(); let mut v = base.clone(); v.insert(p, b','); out.push(("separator", false, v)); }
+    { let mut v = base.clone(); v[1] = b'\''; out.push(("separator", false, v)); }
+    { let mut v = base.clone(); v.insert(1, b','); out.push(("separator", false, v)); }
+    { let mut v = base.clone(); v.insert(1, 0x0c); out.push(("whitespace", false, v)); }
+    { let mut v = base.clone(); v.insert(1, 0xa0); out.push(("whitespace", false, v)); }
+    { let mut v = vec![0xef, 0xbb, 0xbf]; v.extend_from_slice(&base); out.push(("whitespace", false, v)); }
+    // trailing input
+    for t in [&b"x"[..], b"}", b" ", b"\n\t\r ", b",", b"null", b"{}", b"\x00", b" x"] { let mut v = base.clone(); v.extend_from_slice(t); out.push(("trailing", false, v)); }
+    // other documents
+    for t in [&b"null"[..], b" null ", b"nul", b"nullx", b"null,", b"n", b"NULL", b"{}", b" { } ", b"[]", b"", b" ", b"true", b"0", b"\"x\"", b"{", b"}", b"{\"", b"{,}", b"[null]", b"{\"a\"}"] {
+        out.push(("document", t == b"[]", t.to_vec())); }
+    // the array form of the struct (serde's visit_seq)
+    { let mut v = vec![b'[']; for (i, (_, x)) in d.0.iter().enumerate() { if i > 0 { v.push(b','); } v.extend_from_slice(x); } v.push(b']'); out.push(("array-form", true, v)); }
+    // byte-level noise: a few random edits (replace / insert / delete, biased to JSON punctuation)
+    for _ in 0..40 {
+        let mut v = if r.chance(1, 4) { compose(d, r, true) } else { base.clone() };
+        for _ in 0..(1 + r.below(3)) {
+            if v.is_empty() { break; }
+            let at = r.below(v.len() as u64) as usize;
+            let b = if r.chance(2, 3) { *r.pick(b"\"\\{}[],:0123456789-.eEnultrufalse \n\tu/") } else { r.next() as u8 };
+            match r.below(3) { 0 => v[at] = b, 1 => v.insert(at, b), _ => { v.remove(at); } }
+        }
+        out.push(("noise", false, v));
+    }
+    let _ = session;
+    out
+}
+
+fn json_families(r: &mut Rng, scale: usize) {
+    let mut n_js = 0usize; let mut n_jp = 0usize; let mut n_ok = 0usize; let mut n_expected_outside = 0usize;
+    let mut labels: std::collections::BTreeMap<&'static str, (usize, usize)> = Default::default();
+    // ---- JS: records written by the real serde_json
+    for _ in 0..(60 * scale) {
+        let c = rnd_auth(r);
+        emit_case("JS", &format!("(JSA {} {})", g_auth_cookie(&c), g_hex(&js(&c)))); n_js += 1;
+    }
+    for _ in 0..(30 * scale) {
+        let c = rnd_session(r);
+        emit_case("JS", &format!("(JSS {} {} {})", g_opt(c.trace_id.as_ref().map(|t| g_str(t))), g_session_cookie(&c), g_hex(&js(&c)))); n_js += 1;
+    }
+    // ---- JP: byte strings read by the real serde_json
+    let mut emit_a = |label: &'static str, outside: bool, b: &[u8], n_jp: &mut usize, n_ok: &mut usize, n_eo: &mut usize| {
+        let v = jres_auth(b); let e = labels.entry(label).or_default(); e.0 += 1; if v != "JErr" { *n_ok += 1; e.1 += 1; }
+        if outside { *n_eo += 1; }
+        emit_case("JP", &format!("(JPA {} {})", g_hex(b), v)); *n_jp += 1;
+    };
+    for _ in 0..(6 * scale) {
+        let c = rnd_auth(r);
+        let d = auth_doc(&c);
+        assert_eq!(compose(&d, r, false), js(&c));
+        let strings = vec![("user_name", c.user_name.clone()), ("client_addr", c.client_addr.to_string()), ("user_id", c.user_id.to_string()),
+                           ("target", c.target.clone().unwrap_or("t/".into()))];
+        for (l, o, b) in mutations(r, &d, &strings, "timestamp", "user_id", false) { emit_a(l, o, &b, &mut n_jp, &mut n_ok, &mut n_expected_outside); }
+        for a in ADDRS { emit_a("address", false, &compose(&put(&d, "client_addr", &qs(a)), r, false), &mut n_jp, &mut n_ok, &mut n_expected_outside); }
+        // target
+        for t in [&b"null"[..], b" null", b"nul", b"nulL", b"\"\"", b"\"null\""] { emit_a("target", false, &compose(&put(&d, "target", t), r, false), &mut n_jp, &mut n_ok, &mut n_expected_outside); }
+        // extra: several entries (hand-written: a HashMap would print them in a random order), duplicates, wrong values
+        for (o, t) in [(false, &b"{\"b\":\"2\",\"a\":\"1\"}"[..]), (false, b"{\"a\":\"1\",\"ab\":\"\",\"\":\"x\",\"B\":\"\\u00e4\"}"), (true, b"{\"a\":\"1\",\"a\":\"2\"}"), (true, b"{\"a\":\"1\",\"b\":\"2\",\"\\u0061\":\"3\"}"),
+                       (false, b"{\"a\":1}"), (false, b"{\"a\":null}"), (false, b"{\"a\":\"1\",}"), (false, b"{a:\"1\"}"), (false, b"{1:\"1\"}"), (false, b"[]"), (false, b"null"), (false, b" { \"k\" : \"v\" } "), (false, b"{\"a\":\"1\" \"b\":\"2\"}"),
+                       (false, b"{\"\xc3\xa4\":\"1\",\"z\":\"2\",\"\\u00e4b\":\"3\"}"), (false, b"{\"a\":\"\xff\"}")] {
+            emit_a("extra", o, &compose(&put(&d, "extra", t), r, false), &mut n_jp, &mut n_ok, &mut n_expected_outside); }
+        // profile_properties: element level mutations
+        let p = rnd_prop(r);
+        let pd = Doc(vec![(b"name".to_vec(), js(&p.name)), (b"value".to_vec(), js(&p.value)), (b"signature".to_vec(), js(&p.signature))]);
+        let mut elems: Vec<(bool, Vec<u8>)> = vec![];
+        elems.push((false, compose(&pd, r, true)));
+        for i in 0..3 { let mut e = pd.clone(); e.0.remove(i); elems.push((false, compose(&e, r, false))); }
+        { let mut e = pd.clone(); e.0.reverse(); elems.push((false, compose(&e, r, false))); }
+        { let mut e = pd.clone(); e.0.push((b"Signature".to_vec(), b"null".to_vec())); elems.push((true, compose(&e, r, false))); }
+        { let mut e = pd.clone(); let f = e.0[1].clone(); e.0.push(f); elems.push((false, compose(&e, r, false))); }
+        { let mut e = pd.clone(); e.0[2].1 = b"7".to_vec(); elems.push((false, compose(&e, r, false))); }
+        { let mut e = pd.clone(); e.0[0].1 = b"null".to_vec(); elems.push((false, compose(&e, r, false))); }
+        { let mut v = vec![b'[']; v.extend_from_slice(&pd.0[0].1); v.push(b','); v.extend_from_slice(&pd.0[1].1); v.push(b','); v.extend_from_slice(&pd.0[2].1); v.push(b']'); elems.push((true, v)); }
+        elems.push((false, b"null".to_vec())); elems.push((false, b"{}".to_vec())); elems.push((false, b"\"x\"".to_vec()));
+        for (o, e) in elems {
+            let mut v = vec![b'[']; if r.chance(1, 2) { v.extend(compose(&pd, r, false)); v.push(b','); } v.extend_from_slice(&e); v.push(b']');
+            emit_a("property", o, &compose(&put(&d, "profile_properties", &v), r, false), &mut n_jp, &mut n_ok, &mut n_expected_outside);
+        }
+        let one = compose(&pd, r, false);
+        for t in [&b"[,]"[..], b"[", b"[]x", b"[ ]", b"{}", b"null", b"\"\""] { emit_a("property", false, &compose(&put(&d, "profile_properties", t), r, false), &mut n_jp, &mut n_ok, &mut n_expected_outside); }
+        for (pre, post) in [(&b"["[..], &b",]"[..]), (b"[", b" , ]"), (b"[,", b"]"), (b"[", b"]]"), (b"[", b""), (b"[", b";"), (b" [ ", b" ] "), (b"[[", b"]]")] {
+            let mut v = pre.to_vec(); v.extend_from_slice(&one); v.extend_from_slice(post);
+            emit_a("property", false, &compose(&put(&d, "profile_properties", &v), r, false), &mut n_jp, &mut n_ok, &mut n_expected_outside); }
+        { let mut v = vec![b'[']; v.extend_from_slice(&one); v.push(b' '); v.extend_from_slice(&one); v.push(b']');
+          emit_a("property", false, &compose(&put(&d, "profile_properties", &v), r, false), &mut n_jp, &mut n_ok, &mut n_expected_outside); }
+        let _ = get(&d, "extra");
+    }
+    drop(emit_a);
+    let mut emit_s = |label: &'static str, outside: bool, b: &[u8], n_jp: &mut usize, n_ok: &mut usize, n_eo: &mut usize| {
+        let v = jres_session(b); let e = labels.entry(label).or_default(); e.0 += 1; if v != "JErr" { *n_ok += 1; e.1 += 1; }
+        if outside { *n_eo += 1; }
+        emit_case("JP", &format!("(JPS {} {})", g_hex(b), v)); *n_jp += 1;
+    };
+    for _ in 0..(4 * scale) {
+        let c = rnd_session(r);
+        let d = session_doc(&c);
+        assert_eq!(compose(&d, r, false), js(&c));
+        let strings = vec![("server_address", c.server_address.clone()), ("id", c.id.to_string()), ("trace_id", c.trace_id.clone().unwrap_or("/".into()))];
+        for (l, o, b) in mutations(r, &d, &strings, "server_port", "id", true) { emit_s(l, o, &b, &mut n_jp, &mut n_ok, &mut n_expected_outside); }
+    }
+    drop(emit_s);
+    emit_note("js_cases", &n_js.to_string());
+    emit_note("jp_cases", &n_jp.to_string());
+    emit_note("jp_serde_ok", &n_ok.to_string());
+    emit_note("jp_expected_outside_model", &n_expected_outside.to_string());
+    emit_note("jp_by_mutation(total/serde_ok)", &labels.iter().map(|(k, (a, b))| format!("{}={}/{}", k, a, b)).collect::<Vec<_>>().join(","));
+}
 
 fn main() {
     let mut r = Rng::from_env();
@@ -40,4 +335,5 @@ fn main() {
         // random bytes
         { let n = 20 + r.below(60) as usize; let v = r.bytes(n); emit(&secret, &v); }
     }
+    json_families(&mut r, scale);
 }
